@@ -63,15 +63,34 @@ func flatStructType(r *vlib.R, tagged bool) reflect.Type {
 func genConfigType(r *vlib.R, withChild bool, depth int) *genType {
 	g := &genType{}
 	var fs []reflect.StructField
-	fs = append(fs, reflect.StructField{Name: "ID", Type: reflect.TypeOf(""), Tag: `node:"id"`})
-	g.Fields = append(g.Fields, fieldSpec{Name: "ID", Tag: "node", Shape: "id"})
-	if r.Chance(0.7) {
-		fs = append(fs, reflect.StructField{Name: "Parent", Type: reflect.TypeOf(""), Tag: `node:"parent"`})
-		g.Fields = append(g.Fields, fieldSpec{Name: "Parent", Tag: "node", Shape: "parent"})
+	// the id / parent fields usually come first, but nothing says they must: in a quarter of the types they
+	// follow the first point field or close the struct
+	withParent := r.Chance(0.7)
+	idAt := 0
+	switch r.Intn(8) {
+	case 0:
+		idAt = 1
+	case 1:
+		idAt = -1 // last
+	}
+	addNodeFields := func() {
+		fs = append(fs, reflect.StructField{Name: "ID", Type: reflect.TypeOf(""), Tag: `node:"id"`})
+		g.Fields = append(g.Fields, fieldSpec{Name: "ID", Tag: "node", Shape: "id"})
+		if withParent {
+			fs = append(fs, reflect.StructField{Name: "Parent", Type: reflect.TypeOf(""), Tag: `node:"parent"`})
+			g.Fields = append(g.Fields, fieldSpec{Name: "Parent", Tag: "node", Shape: "parent"})
+		}
+	}
+	if idAt == 0 {
+		addNodeFields()
 	}
 	n := 1 + r.Intn(7)
 	var lastPtrStruct reflect.Type
 	for i := 0; i < n; i++ {
+		if i == 1 && idAt == 1 {
+			addNodeFields()
+			idAt = 0
+		}
 		name := fmt.Sprintf("F%d", i)
 		tagKind := "point"
 		if r.Chance(0.2) {
@@ -104,6 +123,9 @@ func genConfigType(r *vlib.R, withChild bool, depth int) *genType {
 		}
 		fs = append(fs, reflect.StructField{Name: name, Type: t, Tag: reflect.StructTag(fmt.Sprintf(`%s:"%s"`, tagKind, ptype))})
 		g.Fields = append(g.Fields, fieldSpec{Name: name, Tag: tagKind, PType: ptype, Shape: shape})
+	}
+	if idAt != 0 {
+		addNodeFields()
 	}
 	if withChild && depth < 2 {
 		g.Child = genConfigType(r, r.Chance(0.3), depth+1)
